@@ -97,6 +97,25 @@ def generate(ck):
                 "queries": [float(v) for v in np.concatenate([rng.normal(0, 2, 4), 10.0 ** rng.uniform(-300, 300, 3), -(10.0 ** rng.uniform(-300, 300, 2))])],
             }
         )
+    # very dense tables (a simulator export on a 0.02 psi grid): every row is a table row however many there
+    # are - sizes straddle 2^19, 2^20 and 2^21 rows
+    sizes = [600001] if ck.tier == "quick" else [600001, 1100003, 2200001]
+    for k, nrows in enumerate(sizes):
+        for j, (fam, branch) in enumerate((("contrast", "long"), ("kinked", "alpha"), ("zlin", "simple"))):
+            if ck.tier == "quick" and j == 2:
+                continue
+            descs.append(
+                {
+                    "table": {"kind": "synthetic", "family": fam, "prm": [0.4, 0.3, 0.5], "n": nrows, "p_lo": 20.0, "p_hi": 12020.0, "grid": "uniform", "seed": 0},
+                    "as": ["df", "dict"][(k + j) % 2],
+                    "branch": branch,
+                    "pi_mode": "off",
+                    "u": [0.75, 0.4, 0.3, 0.6, 0.2, 0.99],
+                    "drop": "",
+                    "unit_scale": [1.0, 1.0],
+                    "queries": [0.0, 0.5, 1.0, -1.0, 2.0, 1e300, 1e-300, -1e300, -1e-300],
+                }
+            )
     return descs
 
 
@@ -249,6 +268,10 @@ def run_case(ck, desc):
     props = obj.pvt_props
     ms = np.asarray(props["m-scaled"], dtype=float)
     al = np.asarray(props["alpha"], dtype=float)
+    # every row of the caller's table is a row of the wrapper's (the look-ups are judged at every node below)
+    if len(ms) != len(p) or len(al) != len(p):
+        ck.violation("wrapper-keeps-every-row", {"rows_in_table": int(len(p)), "rows_stored": int(len(ms))}, desc)
+        return True, None
     # strictly increasing transform
     if np.any(np.diff(ms) <= 0) or not np.all(np.isfinite(ms)):
         ck.violation("m-scaled-strictly-increasing", {"min_step": float(np.nanmin(np.diff(ms)))}, desc)
